@@ -179,9 +179,6 @@ func (x *world) runUpdate(kind string, c *contract, tag, fn, caller string, kvs 
 		}
 	}
 	// replays on the same prior state: other runs of the runtime's map iteration
-	if os.Getenv("NOREPLAY") != "" {
-		replays = 0
-	}
 	for i := 0; i < replays && o.replayDiff == ""; i++ {
 		r2 := x.replayOnPrev(t0, i)
 		switch {
@@ -240,7 +237,7 @@ func (x *world) runUpdate(kind string, c *contract, tag, fn, caller string, kvs 
 					}
 				}
 			}
-		} else if o.confChanged && os.Getenv("NOVALIDATE") == "" {
+		} else if o.confChanged {
 			if err := c.validate(x.w.SCtx()); err != nil {
 				o.validateErr = err.Error()
 			}
